@@ -89,6 +89,10 @@ def shards(tier, seed):
             sh.append(("mixed", S, pers))
         # the same lists on a driver whose first connection attempt was refused altogether (target out of connections) and that was then re-opened
         sh.append(("mixed", S, "v20", "busy2"))
+        # the same lists (and the big-element ladder) with the library logging at its most verbose level
+        sh.append(("mixed", S, "v32", "debuglog"))
+        sh.append(("ladder", S, "v20", None, S + 100, 3, "big", "debuglog"))
+        sh.append(("ladder", S, "v32", "INT", None, 3, "debuglog"))
         # arrays of strings: the element is a structure whose data area is 4 bytes smaller than the element
         for cap in (82, 20, 1):
             sh.append(("ladder", S, "v32" if cap == 20 else "v20", None, ("str", cap), 3))
@@ -106,7 +110,7 @@ def run_shard(shard, tier, seed):
     kind = shard[0]
     if kind == "ladder":
         _, S, pers, elem, ss, nl = shard[:6]
-        big = len(shard) > 6
+        big = len(shard) > 6 and shard[6] == "big"
         cap = None
         if isinstance(ss, (tuple, list)):
             cap, ss = ss[1], None
@@ -197,6 +201,32 @@ def run_shard(shard, tier, seed):
                 for clause, detail in probs[:3]:
                     rep.violation(f"write/{path}/{win}/{clause}", f"{cfg} write {[x for x, _ in reqs]!r} ({total} data bytes, connection {S}): {detail}",
                                   {"shard": list(shard), "tag": tg.name, "op": "write", "path": path, "choices": []})
+        # data that looks like protocol: value bytes spelling the structure marker (a0 02), a type code (c4 00), a status (06 00) - wherever
+        # the controller cuts the fragments, a fragment may start with them; atomic ladders only, every 4th fragmented tag
+        if isinstance(tags[0].typ, str):
+            for pat in (b"\xa0\x02", b"\xc4\x00\xa0\x02", b"\x06\x00", b"\xff\xff\xa0\x02\x00\x00\xa0\x02"):
+                for tg in [x for x in tags if x.nbytes > S - 16][::4]:
+                    keep = bytes(tg.data)
+                    tg.data[:] = (pat * (len(tg.data) // len(pat) + 1))[: len(tg.data)]
+                    n = tg.elements
+                    text = f"{tg.name}{{{n}}}" if n > 1 else tg.name
+
+                    def scenario(ctx, text=text):
+                        ctl.ctx = ctx
+                        ctl.svc_log.clear()
+                        return call(d.read, text)
+
+                    def on_exec(ctx, out, tg=tg, text=text, pat=pat):
+                        want = Q.read_expect(proj, text)
+                        ok = out[0] == "ok" and bool(out[1]) and Q.same_value(out[1].value, want[1])
+                        rep.case((cfg, tg.name, "read-pattern", pat.hex(), tuple(ctx.choices)), outcome="ok:pattern" if ok else "pattern-bad")
+                        if not ok:
+                            rep.violation(f"read/single/data-pattern/{'wrong-value' if out[0] == 'ok' and bool(out[1]) else 'not-readable'}",
+                                          f"{cfg} read {text!r} ({tg.nbytes} bytes of the pattern {pat.hex()}, connection {S}): {str(out)[:100]} (choices {ctx.choices!r})",
+                                          {"shard": list(shard), "tag": tg.name, "op": "read", "path": "single", "choices": list(ctx.choices)})
+                    explore(scenario, 1, on_exec)
+                    ctl.ctx = None
+                    tg.data[:] = keep
         rep.sample({"config": cfg, "tags": len(tags), "sizes": f"{tags[0].nbytes}..{tags[-1].nbytes}"})
         call(d.close)
         w.__exit__()
